@@ -316,7 +316,7 @@ def run(ck, facts):
         ck.bad("R5", "corpus-floor", "only %d generated method wrappers analysed (floor 180)" % n5)
     # macro source: repr(C) is forced
     gb = mac.fn("gen_bridge")
-    srcs = [n.get("src", "") for n in C.walk_inl(mac, C.fn_body(gb), max_nodes=1500) if n.get("k") == "macro" and n.get("name") in ("parse_quote", "quote")]
+    srcs = [n.get("src", "") for b_ in C.bodies_inl(mac, C.fn_body(gb), depth=2, exclude=[gb["path"]], max_nodes=8000) for n in C.walk(b_) if n.get("k") == "macro" and n.get("name") in ("parse_quote", "quote")]
     n_repr = sum(1 for s in srcs if re.search(r"#\s*\[\s*repr\s*\(\s*C\s*\)\s*\]", s))
     # the enum template (the one that also derives Clone, Copy) carries the literal attribute: the C/C++/Dart/Kotlin backends declare every bridge enum as a C `int`-sized
     # enum whatever `repr` the user wrote, so the attribute may not depend on one (a second repr is a compile error, which is the safe outcome)
